@@ -121,5 +121,5 @@ for _k, (_a, _b, _c) in _T.items():
     PROPS[_k]["level_text"], PROPS[_k]["level_note"], PROPS[_k]["technique"] = _a, _b, _c
 
 # properties whose theorem module is not complete yet are not claimed
-for _k in ("C13", "C20", "C03"):
+for _k in ("C13", "C03"):
     PROPS[_k]["unclaimed"] = True
